@@ -428,8 +428,8 @@ func (rtcmHandler *Handler) GetMessage(bitStream []byte) (*Message, error) {
 
 	// We have a complete message.
 
-	// Check the CRC.
-	errorCRC := CheckCRC(messageType, messageLength, bitStream)
+	// Check the CRC of the frame itself (the bit stream may be longer than the frame).
+	errorCRC := CheckCRC(messageType, messageLength, bitStream[:expectedFrameLength])
 	if errorCRC != nil {
 		message := NewNonRTCM(bitStream)
 
